@@ -4,6 +4,7 @@ import Proofs.TieLJShape
 import Proofs.TiePotential
 import Proofs.TieImages
 import Proofs.TieSite
+import Proofs.SrcC03
 #print axioms PV.Proofs.C03.declared_lj_constants
 #print axioms PV.Proofs.C03.w_eval
 #print axioms PV.Proofs.C03.score_unfold
@@ -39,3 +40,4 @@ import Proofs.TieSite
 #print axioms PV.Proofs.Tie.site_transform_tie
 #print axioms PV.Proofs.Tie.site_multiplicity_tie
 #print axioms PV.Proofs.Tie.site_positions_tie
+#print axioms PV.Proofs.Source.C03_source
